@@ -7,12 +7,15 @@ EXTENDS Dispatch, Json, IOUtils
 Cases == JsonDeserialize(IOEnv.TRACE_FILE)
 VARIABLE cid
 TInit == cid \in 1..Len(Cases) /\ s = Cases[cid].s /\ e1 = Cases[cid].e1 /\ e2 = Cases[cid].e2 /\ q = Cases[cid].q
-TNext == UNCHANGED <<cid, s, e1, e2, q>>
-TSpec == TInit /\ [][TNext]_<<cid, s, e1, e2, q>>
+         /\ clobber = Cases[cid].clobber /\ exists = Cases[cid].exists
+TNext == UNCHANGED <<cid, s, e1, e2, q, clobber, exists>>
+TSpec == TInit /\ [][TNext]_<<cid, s, e1, e2, q, clobber, exists>>
 C == Cases[cid]
 A == AdapterQ(s, e1, e2, q)
 Cd == IF UsesOpenPath(A) THEN CodecOfExt(LastExt(e1, e2)) ELSE "none"
-Contract == /\ C.adapter = A
+Contract == IF Refuses THEN C.raised /\ C.untouched                 \* an existing file is refused and stays as it was
+            ELSE
+            /\ C.adapter = A
             /\ Supported(A, Cd) =>
                  /\ ~C.raised
                  /\ C.file_ok                                   \* exactly the named file appeared (no scheme, no query in its name)
